@@ -903,7 +903,11 @@ var qKinds = []string{"q_search", "q_stats", "q_spl", "q_cols", "q_search", "q_s
 
 // ---- main stream: no input of a known-defect class ----
 func genMain(r *vhlib.Rng) (*scenario, *spec) {
-	g := &gen{r: r, s: newSpec(), sc: &scenario{Stream: "main"}, stream: "main", complete: true}
+	// since the repairs of delete-index and of the alias persistence the main stream is unrestricted in these
+	// respects: delete with unrotated data, re-ingest into a deleted index in the same process, aliases of any
+	// org (with alias directory) across a restart, ingest and delete through aliases after a restart; the
+	// two-sided oracle also applies after a restart
+	g := &gen{r: r, s: newSpec(), sc: &scenario{Stream: "main"}, stream: "main", complete: true, completePost: true}
 	g.willRestart = r.Chance(45)
 	n := r.Range(14, 26)
 	// a start that makes names overlap between orgs
@@ -927,15 +931,11 @@ func genMain(r *vhlib.Rng) (*scenario, *spec) {
 		switch {
 		case w < 22:
 			name := vhlib.Pick(r, idxPool[X])
-			if !g.s.restarted && r.Chance(20) {
+			if r.Chance(20) {
 				a := vhlib.Pick(r, aliasPool[X])
 				if len(g.s.alias[X][a]) == 1 {
 					name = a
 				}
-			}
-			t := g.s.resolve(X, name)
-			if g.s.delPhase[X][t] { // M4
-				continue
 			}
 			g.ingest(X, name, r.Range(1, 3))
 		case w < 60:
@@ -943,9 +943,6 @@ func genMain(r *vhlib.Rng) (*scenario, *spec) {
 		case w < 64:
 			g.emit(Op{Kind: "q_list", Org: X}, g.ctxFor(X, "*"))
 		case w < 73:
-			if X != 0 && g.willRestart && g.s.adir[X] {
-				continue
-			}
 			g.aliasOp(X, vhlib.Pick(r, idxPool[X]), vhlib.Pick(r, aliasPool[X]), true)
 		case w < 76:
 			// mostly remove an alias that exists (last alias of the index or one of several)
@@ -963,7 +960,7 @@ func genMain(r *vhlib.Rng) (*scenario, *spec) {
 				g.aliasOp(X, vhlib.Pick(r, idxPool[X]), vhlib.Pick(r, aliasPool[X]), false)
 			}
 		case w < 79:
-			if X != 0 && !g.willRestart && !g.s.adir[X] {
+			if X != 0 && !g.s.adir[X] {
 				g.emit(Op{Kind: "mkadir", Org: X}, nil)
 				g.s.adir[X] = true
 			}
@@ -983,26 +980,10 @@ func genMain(r *vhlib.Rng) (*scenario, *spec) {
 			g.rotate()
 		case w < 86:
 			t := vhlib.Pick(r, idxPool[X])
-			if g.s.delPhase[X][t] {
-				continue
-			}
 			g.emit(Op{Kind: "create", Org: X, Idx: t}, nil)
 			g.s.tables[X][t] = true
 		case w < 95:
 			expr := g.pickExpr(X, false)
-			if g.s.restarted { // M6: no delete through alias names after a restart
-				bad := false
-				for a := range g.s.alias[X] {
-					for _, term := range strings.Split(stripColon(expr), ",") {
-						if term == a || (strings.Contains(term, "*") && glob(term, a)) {
-							bad = true
-						}
-					}
-				}
-				if bad {
-					continue
-				}
-			}
 			ok := true
 			for _, t := range g.dspec(X, expr) {
 				if g.otherOrgHas(X, t) { // M3
@@ -1012,7 +993,7 @@ func genMain(r *vhlib.Rng) (*scenario, *spec) {
 			if !ok {
 				continue
 			}
-			g.delete(X, expr, true)
+			g.delete(X, expr, r.Chance(50))
 		default:
 			if g.willRestart && !g.s.restarted {
 				g.restart()
